@@ -335,3 +335,55 @@ def MMems.findOwn (g : String) : MMems → Option (String × MJ)
   | .nil => none
   | .clear _ _ r => r.findOwn g
   | .marked k dg x r => if dg = g then some (k, x) else r.findOwn g
+
+mutual
+/-- digests that belong to no marked node, at every depth (also inside marked nodes): decoys and
+`_sd` entries that are not the digest of a marked member of their object -/
+def MJ.deepStale : MJ → List String
+  | .leaf _ => []
+  | .arr xs => xs.deepStale
+  | .obj ms sd => (sd.getD []).filter (fun g => !ms.marks.contains g) ++ ms.deepStale
+def MElems.deepStale : MElems → List String
+  | .nil => []
+  | .clear x r => x.deepStale ++ r.deepStale
+  | .marked _ x r => x.deepStale ++ r.deepStale
+  | .decoy dg r => dg :: r.deepStale
+def MMems.deepStale : MMems → List String
+  | .nil => []
+  | .clear _ x r => x.deepStale ++ r.deepStale
+  | .marked _ _ x r => x.deepStale ++ r.deepStale
+end
+
+mutual
+/-- the digests of all marked nodes, at every depth -/
+def MJ.allMarks : MJ → List String
+  | .leaf _ => []
+  | .arr xs => xs.allMarks
+  | .obj ms _ => ms.allMarks
+def MElems.allMarks : MElems → List String
+  | .nil => []
+  | .clear x r => x.allMarks ++ r.allMarks
+  | .marked dg x r => dg :: (x.allMarks ++ r.allMarks)
+  | .decoy _ r => r.allMarks
+def MMems.allMarks : MMems → List String
+  | .nil => []
+  | .clear _ x r => x.allMarks ++ r.allMarks
+  | .marked _ dg x r => dg :: (x.allMarks ++ r.allMarks)
+end
+
+mutual
+/-- the digests of the marked nodes that lie inside another marked node -/
+def MJ.hiddenMarks : MJ → List String
+  | .leaf _ => []
+  | .arr xs => xs.hiddenMarks
+  | .obj ms _ => ms.hiddenMarks
+def MElems.hiddenMarks : MElems → List String
+  | .nil => []
+  | .clear x r => x.hiddenMarks ++ r.hiddenMarks
+  | .marked _ x r => x.allMarks ++ r.hiddenMarks
+  | .decoy _ r => r.hiddenMarks
+def MMems.hiddenMarks : MMems → List String
+  | .nil => []
+  | .clear _ x r => x.hiddenMarks ++ r.hiddenMarks
+  | .marked _ _ x r => x.allMarks ++ r.hiddenMarks
+end
